@@ -5,8 +5,11 @@ import collections
 
 CT = r'(?:unsigned\s+)?(?:double|int|long|float|bint|Py_ssize_t)(?:\s*\[\s*:\s*(?:,\s*:\s*)*\])?'
 
-PRELUDE = ("from math import fabs  # extraction prelude: libc fabs/fmax/fmin -> Python abs/max/min semantics on reals\n"
-           "fmax = max\nfmin = min\nxrange = range\n")
+PRELUDE = ("import numpy as _np  # extraction prelude: libc fabs/fmax/fmin on C doubles -> numpy float64 (no ZeroDivisionError: cdivision)\n"
+           "def fabs(x): return _np.float64(abs(x))\n"
+           "def fmax(a, b): return _np.float64(max(a, b))\n"
+           "def fmin(a, b): return _np.float64(min(a, b))\n"
+           "xrange = range\n")
 PRELUDE_LINES = PRELUDE.count('\n')
 
 
